@@ -18,6 +18,7 @@ inductive EPrim
   | bin        -- AppendBytes / WriteBytes
   | entryList  -- EntryList.MarshalMsg / EncodeMsg (fails on an unencodable record)
   | options    -- (*MessageOptions).MarshalMsg / EncodeMsg on the object the field points to
+  | bool       -- AppendBool / WriteBool
 deriving DecidableEq, Repr
 
 /-- how the error of a call is treated -/
@@ -29,7 +30,7 @@ deriving DecidableEq, Repr
 
 inductive EStmt
   | require                                   -- `o = msgp.Require(b, z.Msgsize())`: capacity only
-  | raw (b : Nat)                             -- `o = append(o, 0x94)` / `en.Append(0x94)`
+  | raw (bs : List Nat)                       -- `o = append(o, 0x94, …)` / `en.Append(0x94, …)`
   | put (p : EPrim) (f : Fld) (c : Chk)       -- append the field's encoding
   | putNil                                    -- AppendNil / WriteNil
   | hdrSz                                     -- AppendArrayHeader(bits, sz) / WriteArrayHeader(uint32(size))
@@ -43,7 +44,7 @@ inductive EStmt
 /-- values a field hands to an encoder primitive -/
 inductive EV
   | str (b : Bytes) | i64 (i : Int) | goval (g : GoVal) | et (t : Instant)
-  | entries (l : List (Instant × GoVal)) | opts (o : Option Options)
+  | entries (l : List (Instant × GoVal)) | opts (o : Option Options) | bool (b : Bool) | heloOpts (o : Option HeloOpts)
 
 inductive ERes | ok (out : Bytes) | err | panic (why : String)
 deriving DecidableEq
@@ -62,7 +63,14 @@ def encPrim : EPrim → EV → Option (Option Bytes)
   | .bin, .str s => some (some (appendBytes s))
   | .entryList, .entries l => some (EntryList.marshal l)
   | .options, .opts (some o) => some (some o.marshal)
+  | .bool, .bool v => some (some (appendBool v))
   | _, _ => none
+
+/-- the pointer-typed field values -/
+def isNilPtr : EV → Option Bool
+  | .opts o => some o.isNone
+  | .heloOpts o => some o.isNone
+  | _ => none
 
 structure St where
   sz : Nat := 0
@@ -72,7 +80,7 @@ structure St where
 mutual
 def eexec {σ} (get : Fld → σ → Option EV) (src : σ) : EStmt → (St → ERes) → St → ERes
   | .require, k, s => k s
-  | .raw b, k, s => k { s with out := s.out ++ [UInt8.ofNat b] }
+  | .raw bs, k, s => k { s with out := s.out ++ bs.map UInt8.ofNat }
   | .put p f c, k, s =>
     match (get f src).bind (encPrim p) with
     | none => .panic "nil pointer dereference, or a field of another type"
@@ -86,15 +94,15 @@ def eexec {σ} (get : Fld → σ → Option EV) (src : σ) : EStmt → (St → E
   | .hdrSz, k, s => k { s with out := s.out ++ appendArrayHeader s.sz }
   | .setSz n, k, s => k { s with sz := n }
   | .ifNil f thn els, k, s =>
-    match get f src with
-    | some (.opts none) => eexecs get src thn k s
-    | some (.opts (some _)) => eexecs get src els k s
-    | _ => .panic "nil test on a field that is not a pointer"
+    match (get f src).bind isNilPtr with
+    | some true => eexecs get src thn k s
+    | some false => eexecs get src els k s
+    | none => .panic "nil test on a field that is not a pointer"
   | .ifNotNil f thn els, k, s =>
-    match get f src with
-    | some (.opts none) => eexecs get src els k s
-    | some (.opts (some _)) => eexecs get src thn k s
-    | _ => .panic "nil test on a field that is not a pointer"
+    match (get f src).bind isNilPtr with
+    | some true => eexecs get src els k s
+    | some false => eexecs get src thn k s
+    | none => .panic "nil test on a field that is not a pointer"
   | .ifSzEq n thn, k, s => if s.sz = n then eexecs get src thn k s else k s
   | .ret, _, s => if s.err then .err else .ok s.out
   | .unknown w, _, _ => .panic ("statement not understood by the translator: " ++ w)
@@ -150,6 +158,62 @@ def PackedSrc.get : Fld → Packed → Option EV
   | .Tag, m => some (.str m.tag)
   | .EventStream, m => some (.str m.stream)
   | .Options, m => some (.opts m.options)
+  | _, _ => none
+
+/-! ### the msgp-generated types -/
+
+structure EntrySrc where
+  ts : Int
+  record : GoVal
+
+structure EntryExtSrc where
+  ts : Instant
+  record : GoVal
+
+def EntrySrc.get : Fld → EntrySrc → Option EV
+  | .Timestamp, m => some (.i64 m.ts)
+  | .Record, m => some (.goval m.record)
+  | _, _ => none
+
+def EntryExtSrc.get : Fld → EntryExtSrc → Option EV
+  | .Timestamp, m => some (.et m.ts)
+  | .Record, m => some (.goval m.record)
+  | _, _ => none
+
+def PingSrc.get : Fld → Ping → Option EV
+  | .MessageType, m => some (.str m.mtype)
+  | .ClientHostname, m => some (.str m.hostname)
+  | .SharedKeySalt, m => some (.str m.salt)
+  | .SharedKeyHexDigest, m => some (.str m.digest)
+  | .Username, m => some (.str m.username)
+  | .Password, m => some (.str m.password)
+  | _, _ => none
+
+def PongSrc.get : Fld → Pong → Option EV
+  | .MessageType, m => some (.str m.mtype)
+  | .AuthResult, m => some (.bool m.authResult)
+  | .Reason, m => some (.str m.reason)
+  | .ServerHostname, m => some (.str m.hostname)
+  | .SharedKeyHexDigest, m => some (.str m.digest)
+  | _, _ => none
+
+def AckSrc.get : Fld → Ack → Option EV
+  | .Ack, m => some (.str m.ack)
+  | _, _ => none
+
+def HeloOptsSrc.get : Fld → HeloOpts → Option EV
+  | .Nonce, m => some (.str m.nonce)
+  | .Auth, m => some (.str m.auth)
+  | .Keepalive, m => some (.bool m.keepalive)
+  | _, _ => none
+
+/-- `z.Options.Nonce` … behind a nil pointer are not values (Go would dereference nil) -/
+def HeloSrc.get : Fld → Helo → Option EV
+  | .MessageType, m => some (.str m.mtype)
+  | .Options, m => some (.heloOpts m.options)
+  | .OptionsNonce, m => m.options.map fun o => .str o.nonce
+  | .OptionsAuth, m => m.options.map fun o => .str o.auth
+  | .OptionsKeepalive, m => m.options.map fun o => .bool o.keepalive
   | _, _ => none
 
 end FV.Sk
